@@ -279,8 +279,10 @@ class CellTrans(IntTrans):
 
 
 def _shape(fn, body, want):
+    # `x op= e` and `x = x op e` are the same statement to the translator (CellTrans handles both)
+    norm = lambda names: ["Assign" if n == "AugAssign" else n for n in names]
     got = [type(x).__name__ for x in body]
-    if got != want:
+    if norm(got) != norm(want):
         raise TranslatorError(f"{fn.name}: unexpected statement shape {got}")
 
 
@@ -302,13 +304,16 @@ def _query_linear(cm):
     _shape(fn, loop, ["Assign", "Assign", "If"])
     if ast.unparse(loop[0].targets[0]) != "buckets[row]" or "cms" in ast.unparse(loop[0].value):
         raise TranslatorError("_query_linear: first statement of the loop is not the column assignment `buckets[row] = ...`")
-    if not (isinstance(body[2].value, ast.Name) and body[2].value.id == "min_count"):
-        raise TranslatorError("_query_linear: does not return min_count")
+    if not (isinstance(body[0], ast.Assign) and isinstance(body[0].targets[0], ast.Name)):
+        raise TranslatorError("_query_linear: first statement does not initialise the running minimum")
+    mc = body[0].targets[0].id              # local names are taken from the source (a rename is not a change)
+    if not (isinstance(body[2].value, ast.Name) and body[2].value.id == mc):
+        raise TranslatorError("_query_linear: does not return the running minimum")
     t = CellTrans({})
     out = [f"(* countmin.py _query_linear l.{body[0].lineno}: the running minimum starts from uint_maxval *)",
-           t.cell_region("gen_query_linear_init", fn, body[0:1], ["uint_maxval"], ["min_count"]),
+           t.cell_region("gen_query_linear_init", fn, body[0:1], ["uint_maxval"], [mc]),
            f"(* _query_linear l.{loop[1].lineno}-{loop[2].end_lineno}: one row of the loop, after the column was stored into buckets[row] *)",
-           t.cell_region("gen_query_linear_step", fn, loop[1:], ["min_count", "cms_row_buckets_row"], ["min_count"])]
+           t.cell_region("gen_query_linear_step", fn, loop[1:], [mc, "cms_row_buckets_row"], [mc])]
     return out
 
 
@@ -317,18 +322,22 @@ def _add_linear(cm):
     body = _strip_doc(fn)
     _shape(fn, body, ["Assign", "If", "Assign", "Assign", "AugAssign", "For"])
     q = body[0]
-    if not (isinstance(q.targets[0], ast.Name) and q.targets[0].id == "min_count" and isinstance(q.value, ast.Call)
+    if not (isinstance(q.targets[0], ast.Name) and isinstance(q.value, ast.Call)
             and getattr(q.value.func, "id", None) == "_query_linear"
             and [ast.unparse(a) for a in q.value.args] == ["cms", "buckets", "width", "depth", "uint_maxval", "key"]):
-        raise TranslatorError("_add_linear: first statement is not min_count = _query_linear(cms, buckets, width, depth, uint_maxval, key)")
+        raise TranslatorError("_add_linear: first statement is not <min> = _query_linear(cms, buckets, width, depth, uint_maxval, key)")
+    mc = q.targets[0].id                    # local names are taken from the source (a rename is not a change)
+    if not (isinstance(body[3], ast.Assign) and isinstance(body[3].targets[0], ast.Name)):
+        raise TranslatorError("_add_linear: fourth statement does not assign the new count to a local")
+    nc = body[3].targets[0].id
     _range_loop(fn, body[5], "row", "depth")
     t = CellTrans({})
     out = [f"(* countmin.py _add_linear l.{body[1].lineno}-{body[4].end_lineno}: from the queried minimum to (value, new_count, n_added_records[0]); "
            "None = the early return *)",
-           t.cell_region("gen_add_linear_pre", fn, body[1:5], ["min_count", "value", "uint_maxval", "n_added_records_0"],
-                         ["value", "new_count", "n_added_records_0"], option=True),
+           t.cell_region("gen_add_linear_pre", fn, body[1:5], [mc, "value", "uint_maxval", "n_added_records_0"],
+                         ["value", nc, "n_added_records_0"], option=True),
            f"(* _add_linear l.{body[5].body[0].lineno}-{body[5].body[-1].end_lineno}: body of the update loop, new content of cms[row, buckets[row]] *)",
-           t.cell_region("gen_add_linear_cell", fn, body[5].body, ["cms_row_buckets_row", "new_count"], ["cms_row_buckets_row"])]
+           t.cell_region("gen_add_linear_cell", fn, body[5].body, ["cms_row_buckets_row", nc], ["cms_row_buckets_row"])]
     return out
 
 
